@@ -171,9 +171,16 @@ def precall(chk, db, records=("etl::static_vector", "etl::inplace_vector", "etl:
     return n
 
 
+META = (META[0] + ' ENGAGE (shared with C07: the engaged flag the dereference guards test follows the source of every optional assignment).', META[1])
+
+
 def run(chk, tier):
     from ..rules import dims as _DM
     _DM.check(chk, D.load("checks"), ["_linalg/blas"], floor=6)      # DIM: linalg index loops vs the extents the preconditions equate
+    # ENGAGE (shared with C07 / C03): a guard `has_value()` decides whether the handler fires only if the engaged flag is
+    # right - an assignment from an empty source that leaves the target engaged makes the later dereference pass the guard
+    from . import c07 as _c07e
+    _c07e.engage_rule(chk, D.load("checks"))
     with open(SPEC) as f:
         table = json.load(f)["entries"]
     configs = ["checks", "safe"] if tier == "quick" else ["checks", "safe", "plain", "suite"]
